@@ -5,6 +5,7 @@ package harness
 import (
 	"fmt"
 	"github.com/platinummonkey/go-concurrency-limits/core"
+	"math"
 	"testing"
 	"testing/synctest"
 	"time"
@@ -35,6 +36,10 @@ func genC12(coop bool) func(t *rapid.T) c02Case {
 			c.Stack.Backlog = rapid.SampledFrom([]int{0, -1, -7}).Draw(t, "nonPositiveBacklog")
 			c.Stack.TimeoutMs = 50
 			c.Evs = append(c.Evs, c02Ev{K: "mass", N: rapid.IntRange(1, 5).Draw(t, "extra")})
+		}
+		if rapid.IntRange(0, 7).Draw(t, "forever") == 0 {
+			// "wait for as long as it takes": the largest duration there is
+			c.Stack.TimeoutNs = rapid.SampledFrom([]int64{math.MaxInt64, math.MaxInt64 - 1, math.MaxInt64 / 2, int64(250 * 365 * 24 * time.Hour)}).Draw(t, "foreverNs")
 		}
 		if coop {
 			c.Yields = yieldList(rapid.SliceOfN(rapid.SampledFrom([]uint8{0, 0, 1, 1, 2, 3}), 0, 40).Draw(t, "yields"))
@@ -109,7 +114,7 @@ func runC12InBubble(c c02Case) (out kit.Outcome) {
 		}
 	}
 	fail := func(o kit.Outcome) kit.Outcome {
-		w.unwind(c.Stack.effTimeout() + 2*time.Second)
+		w.unwind(c.Stack.unwindWait())
 		w.flush()
 		return o
 	}
@@ -179,7 +184,7 @@ func runC12InBubble(c c02Case) (out kit.Outcome) {
 			}
 		}
 	}
-	if msg := w.unwind(c.Stack.effTimeout() + 2*time.Second); msg != "" {
+	if msg := w.unwind(c.Stack.unwindWait()); msg != "" {
 		w.flush()
 		return kit.Viol(kind+":stuck", "%s", msg)
 	}
